@@ -52,10 +52,7 @@ func (g *Gen) freshOfType(st *State, name string, t types.Type) Val {
 	}
 	v := g.freshConst(name, g.sortOf(t))
 	g.assume(st, g.wf(v, t))
-	switch t.Underlying().(type) {
-	case *types.Pointer, *types.Map, *types.Chan:
-		g.assume(st, sx("<=", v, st.top))
-	}
+	g.assume(st, g.allocatedIn(v, t, st.top, 0))
 	return Val{T: v}
 }
 
@@ -183,10 +180,10 @@ func (g *Gen) uncontracted(fr *Frame, st *State, c *ssa.CallCommon, args []Val, 
 			touch = true
 		}
 		if touch {
-			g.havocAllHeap(st)
 			nt := g.freshConst("top", "Int")
 			g.assume(st, sx(">=", nt, st.top))
 			st.top = nt
+			g.havocAllHeap(st)
 			g.note("uncontracted call havocs the whole heap: " + what)
 		}
 	}
